@@ -30,3 +30,8 @@ def run(tier):
     cov["delta_declines"] = {"%s/%s" % k: n for k, n in rd.sigs.most_common(8)}
     out.coverage = cov
     return out.finish()
+
+
+def replay_file(path):
+    from harness import replayfile
+    return replayfile.replay_term(path, "harness.modes:c14delta", "C14")
